@@ -52,7 +52,9 @@ fn show_op(o: &Op) -> String {
 
 fn new_sinc<F: Fr>(ring: &[Vec<f64>]) -> Option<Sinc<Vec<F>>> {
     let data: Vec<F> = ring.iter().map(|f| F::from_ch(f)).collect();
-    guarded(move || Sinc::new(ring_buffer::Fixed::from(data)))
+    // the ring may be handed over at any rotation: `first` = a function of the content's length and first value's bits
+    let first = if data.is_empty() { 0 } else { (ring.len() * 3 + ring[0].len()) % data.len() };
+    guarded(move || { let mut d = data; d.rotate_right(first); Sinc::new(ring_buffer::Fixed::from_raw_parts(first, d)) })
 }
 
 /// outputs of the `Interp` operations (None = the constructor panicked)
@@ -303,7 +305,7 @@ fn conv_case<F: Fr>(depth: usize, ratio: f64, src: &[Vec<f64>], nout: usize, st:
     let pulls = Rc::new(Cell::new(0u64));
     let frames: Vec<F> = src.iter().map(|f| F::from_ch(f)).collect();
     let source = Counted { inner: signal::from_iter(frames.clone().into_iter()), pulls: pulls.clone() };
-    let sinc = Sinc::new(ring_buffer::Fixed::from(vec![F::EQUILIBRIUM; n]));
+    let sinc = Sinc::new(ring_buffer::Fixed::from_raw_parts((src.len() + nout) % n.max(1), vec![F::EQUILIBRIUM; n]));
     let mut conv = Converter::scale_playback_hz(source, sinc, ratio);
     let peak = src.iter().flat_map(|f| f.iter()).fold(0.0f64, |m, x| m.max(x.abs()));
     let mut obs = Vec::new();
